@@ -1,43 +1,102 @@
-MUTATIONS = [
-    dict(name="c20-req-put-before-serve", prop="C20", file="netutil/httputil/logmw.go", tests=["./netutil/httputil/"],
-         edits=[("""		nextReq := mw.reqPool.Get()
-		defer mw.reqPool.Put(nextReq)
-
-		CopyRequestTo(ctx, nextReq, r)
-""", """		nextReq := mw.reqPool.Get()
-
-		CopyRequestTo(ctx, nextReq, r)
-		mw.reqPool.Put(nextReq)
-""")]),
-    dict(name="c20-attrs-put-after-withattrs", prop="C20", file="netutil/httputil/logmw.go", tests=["./netutil/httputil/"],
-         edits=[("""		attrsPtr := mw.attrsSlicePtr(r)
-		defer mw.attrPool.Put(attrsPtr)
-
-		logHdlr := mw.logger.Handler().WithAttrs(*attrsPtr)
-""", """		attrsPtr := mw.attrsSlicePtr(r)
-
-		logHdlr := mw.logger.Handler().WithAttrs(*attrsPtr)
-		mw.attrPool.Put(attrsPtr)
-""")]),
-    dict(name="c20-rw-put-before-finished", prop="C20", file="netutil/httputil/logmw.go", tests=["./netutil/httputil/"],
-         edits=[("""		rw := mw.rwPool.Get()
-		defer mw.rwPool.Put(rw)
-
-		rw.Reset(w)
-
-		l.Log(ctx, mw.lvl, "started")
-		defer mw.logFinished(ctx, l, rw, startTime)
-""", """		rw := mw.rwPool.Get()
-
-		rw.Reset(w)
-
-		l.Log(ctx, mw.lvl, "started")
-		defer mw.logFinished(ctx, l, rw, startTime)
-		defer mw.rwPool.Put(rw)
-""")]),
-    dict(name="c20-reset-keeps-code", prop="C20", file="netutil/httputil/responsewriter.go", tests=["./netutil/httputil/"],
-         edits=[("""	w.rw = rw
-	w.code = 0
-}""", """	w.rw = rw
-}""")]),
-]
+MUTATIONS = [{'edits': [('\t\tnextReq := mw.reqPool.Get()\n'
+             '\t\tdefer mw.reqPool.Put(nextReq)\n'
+             '\n'
+             '\t\tCopyRequestTo(ctx, nextReq, r)\n',
+             '\t\tnextReq := mw.reqPool.Get()\n\n\t\tCopyRequestTo(ctx, nextReq, r)\n\t\tmw.reqPool.Put(nextReq)\n')],
+  'file': 'netutil/httputil/logmw.go',
+  'name': 'c20-req-put-before-serve',
+  'prop': 'C20',
+  'tests': ['./netutil/httputil/']},
+ {'edits': [('\t\tattrsPtr := mw.attrsSlicePtr(r)\n'
+             '\t\tdefer mw.attrPool.Put(attrsPtr)\n'
+             '\n'
+             '\t\tlogHdlr := mw.logger.Handler().WithAttrs(*attrsPtr)\n',
+             '\t\tattrsPtr := mw.attrsSlicePtr(r)\n'
+             '\n'
+             '\t\tlogHdlr := mw.logger.Handler().WithAttrs(*attrsPtr)\n'
+             '\t\tmw.attrPool.Put(attrsPtr)\n')],
+  'file': 'netutil/httputil/logmw.go',
+  'name': 'c20-attrs-put-after-withattrs',
+  'prop': 'C20',
+  'tests': ['./netutil/httputil/']},
+ {'edits': [('\t\trw := mw.rwPool.Get()\n'
+             '\t\tdefer mw.rwPool.Put(rw)\n'
+             '\n'
+             '\t\trw.Reset(w)\n'
+             '\n'
+             '\t\tl.Log(ctx, mw.lvl, "started")\n'
+             '\t\tdefer mw.logFinished(ctx, l, rw, startTime)\n',
+             '\t\trw := mw.rwPool.Get()\n'
+             '\n'
+             '\t\trw.Reset(w)\n'
+             '\n'
+             '\t\tl.Log(ctx, mw.lvl, "started")\n'
+             '\t\tdefer mw.logFinished(ctx, l, rw, startTime)\n'
+             '\t\tdefer mw.rwPool.Put(rw)\n')],
+  'file': 'netutil/httputil/logmw.go',
+  'name': 'c20-rw-put-before-finished',
+  'prop': 'C20',
+  'tests': ['./netutil/httputil/']},
+ {'edits': [('\tw.rw = rw\n\tw.code = 0\n}', '\tw.rw = rw\n}')],
+  'file': 'netutil/httputil/responsewriter.go',
+  'name': 'c20-reset-keeps-code',
+  'prop': 'C20',
+  'tests': ['./netutil/httputil/']},
+ {'edits': [('import (\n\t"context"\n\t"net/http"\n)', 'import (\n\t"context"\n\t"net/http"\n\t"slices"\n)'),
+            ('\tfor i := len(middlewares) - 1; i >= 0; i-- {\n'
+             '\t\tm := middlewares[i]\n'
+             '\t\twrapped = m.Wrap(wrapped)\n'
+             '\t}',
+             '\tslices.Reverse(middlewares)\n\tfor _, m := range middlewares {\n\t\twrapped = m.Wrap(wrapped)\n\t}')],
+  'file': 'netutil/httputil/httputil.go',
+  'name': 'c20-wrap-reverses-callers-slice',
+  'prop': 'C20',
+  'tests': ['./netutil/httputil/']},
+ {'edits': [('\t\tm := middlewares[i]\n',
+             '\t\tm := middlewares[i]\n\t\tif i > 0 && m == middlewares[i-1] {\n\t\t\tcontinue\n\t\t}\n')],
+  'file': 'netutil/httputil/httputil.go',
+  'name': 'c20-wrap-skips-adjacent-repeat',
+  'prop': 'C20',
+  'tests': ['./netutil/httputil/']},
+ {'edits': [('\tfor i := len(middlewares) - 1; i >= 0; i-- {', '\tfor i := min(len(middlewares)-1, 1); i >= 0; i-- {')],
+  'file': 'netutil/httputil/httputil.go',
+  'name': 'c20-wrap-drops-last-of-many',
+  'prop': 'C20',
+  'tests': ['./netutil/httputil/']},
+ {'edits': [('\tw.rw = rw\n\tw.code = 0\n', '\tw.rw = rw\n')],
+  'file': 'netutil/httputil/responsewriter.go',
+  'name': 'c20-rw-code-not-reset',
+  'prop': 'C20',
+  'tests': ['./netutil/httputil/']},
+ {'edits': [('\t\tdefer mw.reqPool.Put(nextReq)\n', '\t\tmw.reqPool.Put(nextReq)\n')],
+  'file': 'netutil/httputil/logmw.go',
+  'name': 'c20-request-put-early',
+  'prop': 'C20',
+  'tests': ['./netutil/httputil/']},
+ {'edits': [('\t\tdefer mw.rwPool.Put(rw)\n', '\t\tmw.rwPool.Put(rw)\n')],
+  'file': 'netutil/httputil/logmw.go',
+  'name': 'c20-rw-put-early',
+  'prop': 'C20',
+  'replay': {'cfg': {'handler': 0, 'min_level': -4, 'mw_level': 0},
+             'kind': 'iso',
+             'nodes': [{'body': True, 'code': 404, 'ident': 0, 'late': True, 'parent': -1},
+                       {'body': True, 'code': 0, 'ident': 1, 'parent': 0}]},
+  'tests': ['./netutil/httputil/']},
+ {'edits': [('\t\tdefer mw.attrPool.Put(attrsPtr)\n', '\t\tmw.attrPool.Put(attrsPtr)\n')],
+  'file': 'netutil/httputil/logmw.go',
+  'name': 'c20-attrs-put-early',
+  'prop': 'C20',
+  'tests': ['./netutil/httputil/']},
+ {'edits': [('\tattrs[3] = slog.String("request_uri", r.RequestURI)\n',
+             '\tif r.RequestURI != "" || attrs[3].Key == "" {\n'
+             '\t\tattrs[3] = slog.String("request_uri", r.RequestURI)\n'
+             '\t}\n')],
+  'file': 'netutil/httputil/logmw.go',
+  'name': 'c20-attrs-stale-request-uri',
+  'prop': 'C20',
+  'tests': ['./netutil/httputil/']},
+ {'edits': [('\tw.code = cmp.Or(w.code, http.StatusOK)', '\tw.code = cmp.Or(http.StatusOK, w.code)')],
+  'file': 'netutil/httputil/responsewriter.go',
+  'name': 'c20-implicit-success-overrides',
+  'prop': 'C20',
+  'tests': ['./netutil/httputil/']}]
